@@ -7,6 +7,8 @@ from ..spec import P, H2, le, be
 from . import c05
 
 EXPLANATION = """
+[ROUND-TRIP, sized symbolic fields] parse(build(values)) = values for version (relay on/off), ping, getheaders (0/1/2/252/253/254 hashes; every count 0..259 in the thorough tier),
+inv (all inventory types, counts across 253) and addr payloads, with hashes / addresses / services as arbitrary byte strings of their fixed widths.
 [TYPESTATE/DOM] recv_msg: each accumulate loop runs while len(acc) != target, requests exactly target - len(acc) bytes
 (no over-read, so consecutive messages cannot bleed into one another), raises when recv returns an empty chunk (peer closed:
 termination instead of a busy loop) and appends the chunk; targets are 24 and the declared payload length (4 bytes LE at
@@ -340,3 +342,5 @@ def run(ctx):
     check_inv_addr_ping(ctx)
     c05.check_writer(ctx, "C17.6")
     c05.check_reader(ctx, "C17.6")
+    from . import rt
+    rt.check_codecs_roundtrip(ctx, "C17.7")
